@@ -137,25 +137,52 @@ fn parse_quoted_term_name(s: &str) -> Result<(String, &str)> {
         fail!("Missing start quote");
     };
 
-    let mut quoted = false;
-    let Some((end, quote)) = s.char_indices().find(|(_, c)| {
-        if quoted {
-            quoted = false;
-            true
-        } else if *c == '\\' {
-            quoted = true;
-            true
-        } else {
-            *c == '"'
+    // the inverse of the `{:?}` representation of a string
+    let mut name = String::new();
+    let mut chars = s.char_indices();
+    while let Some((idx, c)) = chars.next() {
+        match c {
+            '"' => return Ok((name, &s[idx + 1..])),
+            '\\' => match chars.next() {
+                Some((_, c @ ('"' | '\\' | '\''))) => name.push(c),
+                Some((_, 'n')) => name.push('\n'),
+                Some((_, 'r')) => name.push('\r'),
+                Some((_, 't')) => name.push('\t'),
+                Some((_, '0')) => name.push('\0'),
+                Some((_, 'u')) => {
+                    let Some((_, '{')) = chars.next() else {
+                        fail!("Invalid unicode escape in quoted string");
+                    };
+                    let mut code: u32 = 0;
+                    loop {
+                        match chars.next() {
+                            Some((_, '}')) => break,
+                            Some((_, c)) => {
+                                let Some(digit) = c.to_digit(16) else {
+                                    fail!("Invalid unicode escape in quoted string");
+                                };
+                                let Some(next) =
+                                    code.checked_mul(16).and_then(|v| v.checked_add(digit))
+                                else {
+                                    fail!("Invalid unicode escape in quoted string");
+                                };
+                                code = next;
+                            }
+                            None => fail!("Missing end quote"),
+                        }
+                    }
+                    let Some(c) = char::from_u32(code) else {
+                        fail!("Invalid unicode escape in quoted string");
+                    };
+                    name.push(c);
+                }
+                Some(_) => fail!("Invalid escape sequence in quoted string"),
+                None => fail!("Missing end quote"),
+            },
+            c => name.push(c),
         }
-    }) else {
-        fail!("Missing end quote");
-    };
-
-    let ident = s[..end].to_owned();
-    let s = &s[end + quote.len_utf8()..];
-
-    Ok((ident, s))
+    }
+    fail!("Missing end quote");
 }
 
 fn parse_ident_term_name(s: &str) -> Result<(String, &str)> {
